@@ -24,6 +24,7 @@ func init() {
 			"(R14.3) the memory sizer's min/max do not depend on the capacity-from-max flag (non-interference over all syntactic paths) and decoded memories are validated against the limit; (R14.4) every host accessor that touches the buffer is dominated by the bounds check with exactly the access width; " +
 			"(R14.5) after every call the compiler re-reads memory base and length whenever the module has a non-shared memory (exhaustive evaluation of the guard over all flag assignments). (R14.6) a host accessor reports success only after its size check (no `return true` ahead of the guard); (R14.7) the Go side of memory.grow acts on the memory of the instance that executes the instruction, not on the entry instance's. NOT decided: contents after growth, allocator behaviour, the emitted machine code.",
 		Rules: []core.Rule{
+			{ID: "R14.12", Template: "T-MUSTPASS", Text: "with a custom allocator every change of the buffer in Grow goes through the allocator, which can refuse it (same analysis as C12 R12.6)", Min: 3},
 			{ID: "R14.11", Template: "T-BOUND", Text: "the view returned by MemoryInstance.Read is capped at the end of the checked range (three-index slice)", Min: 1},
 			{ID: "R14.10", Template: "T-WIDTH", Text: "wazerotest.Memory (the second api.Memory implementation) checks the bytes it accesses (genuine defect found and fixed)", Min: 4},
 			{ID: "R14.8", Template: "T-CONSULT", Text: "a second memory import is refused (genuine defect found and fixed)", Min: 1},
@@ -38,6 +39,7 @@ func init() {
 		},
 		Run: runC14,
 		Controls: []core.Control{
+			{Name: "grow-bypasses-allocator-within-capacity", File: "internal/wasm/memory.go", Old: "\t} else if m.expBuffer != nil {\n", New: "\t} else if m.expBuffer != nil && newPages > m.Cap {\n", Rule: "R14.12", Substr: "Grow"},
 			{Name: "read-view-uncapped", File: "internal/wasm/memory.go", Old: "\treturn m.Buffer[offset:end:end], true\n", New: "\treturn m.Buffer[offset:end], true\n", Rule: "R14.11", Substr: "view"},
 			{Name: "wazerotest-write64-checks-four-bytes", File: "experimental/wazerotest/wazerotest.go", Old: "func (m *Memory) WriteUint64Le(offset uint32, value uint64) bool {\n\tif m.isOutOfRange(offset, 8) {", New: "func (m *Memory) WriteUint64Le(offset uint32, value uint64) bool {\n\tif m.isOutOfRange(offset, 4) {", Rule: "R14.10", Substr: "WriteUint64Le"},
 			{Name: "second-memory-import-overwrites", File: "internal/wasm/module.go", Old: "\t\t\tif memory != nil { // Imported and defined memories share one index space, which has at most one entry.\n\t\t\t\terr = errors.New(\"at most one memory allowed in module\")\n\t\t\t\treturn\n\t\t\t}\n", New: "", Rule: "R14.8", Substr: "memory import"},
@@ -540,6 +542,7 @@ func runC14(c *core.Ctx) {
 	checkReload(c)
 
 	checkReadViewCapped(c)
+	checkAllocatorOwnsBuffer(c, "R14.12")
 }
 
 // sliceWidth renders High-Low for the recognised forms.
